@@ -128,6 +128,26 @@ def gen_cases(spec, ctx):
                 t = tb = r.choice(["json", "yaml"])
                 mode = r.choice([["--format", "yaml"], ["--format", "yaml"], [], ["--format", "json5"], ["--format", "plist"],
                                  ["--format", "xml"], ["--format", "csv"], ["--format", "yaml", "-j"]])
+            if i % 12 in (4, 10):
+                # matching rules (--match-if / --match-unless) over tables and lists of rows: the rule is evaluated for every
+                # candidate pair of nodes; a decision that leans on anything but the two nodes at hand (an identity-keyed memo
+                # surviving from an earlier comparison, say) changes which rows get paired
+                rows = [[r.choice(["a", "b", "c", "ab"]), r.choice([2, 3, 10]), r.choice(["x", "y"])][:r.randint(2, 3)]
+                        for _ in range(r.randint(2, 5))]
+                rows2 = [list(x) for x in rows]
+                r.shuffle(rows2)
+                for row in rows2:
+                    if r.random() < 0.5:
+                        row[r.randrange(len(row))] = r.choice(["a", "b", "zz", 2, 7])
+                if r.random() < 0.4:
+                    rows2.append(["new", 2])
+                a, b = rows, rows2
+                t = tb = r.choice(["json", "yaml", "csv"])
+                if t == "csv":
+                    a, b = [[str(c) for c in row] for row in a], [[str(c) for c in row] for row in b]
+                rule = r.choice(["from[0] != to[0]", "len(from) != len(to)", "from[1] == to[1]", "from == to", "to[0] == 'a'",
+                                 "from[0] in ('a', 'b') and to[0] == 'c'"])
+                mode = [r.choice(["-u", "-m", "--match-unless", "--match-if"]), rule]
             cases.append({"a": a, "b": b, "ds": ds, "le": le, "mode": mode, "idx": i, "kind": st, "type": t, "type_b": tb})
         # the schedule dimension: every other hash seed runs the same batch in reverse order, so that a result which
         # depends on what the process did before shows up as a cross-process digest mismatch
